@@ -526,15 +526,6 @@ func runC06(r *simkit.Run) {
 	r.Sample = c06Cfg{Signal: p.sig, ReadOnly: inputRO, Consumers: desc}
 	r.Logf("fan-out %s inputRO=%v over %v", p.sig, inputRO, desc)
 	ids := &gen.IDs{Prefix: "i"}
-	payload := p.gen(tp, ids)
-	if tp.Chance(1, 2) {
-		gen.Enrich(tp, payload, tp.Chance(1, 4)) // every value kind, ids, events, links, exemplars, ...
-	}
-	if inputRO {
-		p.markReadOnly(payload)
-	}
-	sent := p.bytes(payload)
-	r.Logf("payload %d bytes", len(sent))
 	var later []func()
 	errOf := func(c *c06Consumer) error { return fmt.Errorf("consumer %d: %w", c.n, errStubConsume) }
 	errs := make([]error, n)
@@ -543,14 +534,12 @@ func runC06(r *simkit.Run) {
 	}
 	// the request's context: it may end while the fan-out is under way (a consumer that fails and gives up on the
 	// request) or be over already when the payload arrives; every consumer is invoked all the same
-	reqCtx, cancelReq := context.WithCancel(context.Background())
-	defer cancelReq()
+	var cancelReq context.CancelFunc = func() {}
 	for _, c := range cs {
 		if c.fail && tp.Chance(1, 3) {
 			c.cancels = true
 		}
 	}
-	deadOnEntry := tp.Chance(1, 12)
 	handle := func(c *c06Consumer, x any) error {
 		c.calls++
 		c.held = x
@@ -643,78 +632,103 @@ func runC06(r *simkit.Run) {
 	if fan.caps().MutatesData != wantCap {
 		r.Failf("capability", "fanout", "fan-out over %v advertises MutatesData=%v, expected %v", desc, fan.caps().MutatesData, wantCap)
 	}
-	var err error
-	if deadOnEntry {
-		r.Count("fault.request_context_over_on_entry")
-		cancelReq()
+	// One fan-out serves many deliveries: in 1 run in 3 two or three payloads (empty ones among them) go through the
+	// same fan-out one after the other; every clause holds for every delivery, whatever earlier deliveries left behind.
+	rounds := 1
+	if tp.Chance(1, 3) {
+		rounds = tp.Range(2, 3)
+		r.Count("probe.several_deliveries_through_one_fan_out")
 	}
-	r.Fire("consume", func() { err = fan.consume(reqCtx, payload) })
-	// later tasks of declared-mutating consumers, in tape order
-	for len(later) > 0 {
-		k := tp.Draw(len(later))
-		f := later[k]
-		later = append(later[:k], later[k+1:]...)
-		r.Fire(fmt.Sprintf("async-mutation:%d", k), f)
-		r.Nontrivial = true
-	}
-	if n > 1 {
-		r.Nontrivial = true
-	}
-	// ---- oracle
-	for _, c := range cs {
-		if c.calls != 1 {
-			r.Failf("delivery", fmt.Sprintf("called-%d-times", c.calls), "consumer %d (%s) was invoked %d times", c.n, desc[c.n], c.calls)
-			continue
+	for round := 0; round < rounds && !r.Failed(); round++ {
+		payload := p.gen(tp, ids)
+		if tp.Chance(1, 2) {
+			gen.Enrich(tp, payload, tp.Chance(1, 4)) // every value kind, ids, events, links, exemplars, ...
 		}
-		if !bytes.Equal(c.atCall, sent) {
-			r.Failf("delivery", "content-differs-at-call", "consumer %d (%s) received content that differs from what was sent (%d vs %d bytes)", c.n, desc[c.n], len(c.atCall), len(sent))
+		if inputRO {
+			p.markReadOnly(payload)
 		}
-		if c.fail && !errors.Is(err, errs[c.n]) {
-			r.Failf("errors", "failure-not-aggregated", "consumer %d failed but the returned error %v does not contain its failure", c.n, err)
+		sent := p.bytes(payload)
+		r.Logf("payload %d bytes", len(sent))
+		for _, c := range cs {
+			c.calls, c.held, c.atCall, c.panicked, c.panickedDeclared, c.err = 0, nil, nil, false, false, nil
 		}
-	}
-	anyFail := false
-	for _, c := range cs {
-		anyFail = anyFail || c.fail
-	}
-	if !anyFail && err != nil {
-		r.Failf("errors", "spurious", "no consumer failed but the fan-out returned %v", err)
-	}
-	for _, c := range cs {
-		if c.calls != 1 {
-			continue
+		reqCtx, cancelThis := context.WithCancel(context.Background())
+		cancelReq = cancelThis
+		deadOnEntry := tp.Chance(1, 12)
+		var err error
+		if deadOnEntry {
+			r.Count("fault.request_context_over_on_entry")
+			cancelReq()
 		}
-		now := p.bytes(c.held)
-		switch {
-		case !c.mutates && !c.undeclared:
-			if !bytes.Equal(now, c.atCall) {
-				r.Failf("isolation", "read-only-consumer-saw-change", "consumer %d does not mutate data, yet its view changed after the siblings finished: now contains %s", c.n, witnessesIn(now))
+		r.Fire("consume", func() { err = fan.consume(reqCtx, payload) })
+		// later tasks of declared-mutating consumers, in tape order
+		for len(later) > 0 {
+			k := tp.Draw(len(later))
+			f := later[k]
+			later = append(later[:k], later[k+1:]...)
+			r.Fire(fmt.Sprintf("async-mutation:%d", k), f)
+			r.Nontrivial = true
+		}
+		if n > 1 {
+			r.Nontrivial = true
+		}
+		// ---- oracle
+		for _, c := range cs {
+			if c.calls != 1 {
+				r.Failf("delivery", fmt.Sprintf("called-%d-times", c.calls), "consumer %d (%s) was invoked %d times", c.n, desc[c.n], c.calls)
+				continue
 			}
-		case c.undeclared:
-			if !c.panicked {
-				r.Failf("readonly", "undeclared-mutation-did-not-panic", "consumer %d is one of %d non-mutating consumers sharing the payload (input read-only: %v); its undeclared mutation did not panic", c.n, nRO, inputRO)
+			if !bytes.Equal(c.atCall, sent) {
+				r.Failf("delivery", "content-differs-at-call", "consumer %d (%s) received content that differs from what was sent (%d vs %d bytes)", c.n, desc[c.n], len(c.atCall), len(sent))
 			}
-			if !bytes.Equal(now, c.atCall) {
-				r.Failf("readonly", "undeclared-mutation-changed-data", "the undeclared mutation of consumer %d changed shared data", c.n)
+			if c.fail && !errors.Is(err, errs[c.n]) {
+				r.Failf("errors", "failure-not-aggregated", "consumer %d failed but the returned error %v does not contain its failure", c.n, err)
 			}
 		}
-		// a declared mutator works on data no one else can see: what it holds after everybody is done is what its own
-		// program makes of the payload that was sent, nothing more
-		if c.mutates && !c.panickedDeclared {
-			exp := p.unmarshal(sent)
-			p.mutate(exp, fmt.Sprintf("WITNESS-%d", c.n), c.mutKind)
-			if !bytes.Equal(p.bytes(exp), now) {
-				r.Failf("isolation", "mutator-data-not-private", "consumer %d (%s) holds data that differs from what its own mutation makes of the payload sent (%d vs %d bytes): somebody else can reach its copy", c.n, desc[c.n], len(now), len(p.bytes(exp)))
+		anyFail := false
+		for _, c := range cs {
+			anyFail = anyFail || c.fail
+		}
+		if !anyFail && err != nil {
+			r.Failf("errors", "spurious", "no consumer failed but the fan-out returned %v", err)
+		}
+		for _, c := range cs {
+			if c.calls != 1 {
+				continue
+			}
+			now := p.bytes(c.held)
+			switch {
+			case !c.mutates && !c.undeclared:
+				if !bytes.Equal(now, c.atCall) {
+					r.Failf("isolation", "read-only-consumer-saw-change", "consumer %d does not mutate data, yet its view changed after the siblings finished: now contains %s", c.n, witnessesIn(now))
+				}
+			case c.undeclared:
+				if !c.panicked {
+					r.Failf("readonly", "undeclared-mutation-did-not-panic", "consumer %d is one of %d non-mutating consumers sharing the payload (input read-only: %v); its undeclared mutation did not panic", c.n, nRO, inputRO)
+				}
+				if !bytes.Equal(now, c.atCall) {
+					r.Failf("readonly", "undeclared-mutation-changed-data", "the undeclared mutation of consumer %d changed shared data", c.n)
+				}
+			}
+			// a declared mutator works on data no one else can see: what it holds after everybody is done is what its own
+			// program makes of the payload that was sent, nothing more
+			if c.mutates && !c.panickedDeclared {
+				exp := p.unmarshal(sent)
+				p.mutate(exp, fmt.Sprintf("WITNESS-%d", c.n), c.mutKind)
+				if !bytes.Equal(p.bytes(exp), now) {
+					r.Failf("isolation", "mutator-data-not-private", "consumer %d (%s) holds data that differs from what its own mutation makes of the payload sent (%d vs %d bytes): somebody else can reach its copy", c.n, desc[c.n], len(now), len(p.bytes(exp)))
+				}
+			}
+			// nobody else's witness may be reachable from this consumer's data
+			for _, o := range cs {
+				if o.n != c.n && bytes.Contains(now, []byte(fmt.Sprintf("WITNESS-%d", o.n))) {
+					r.Failf("isolation", "witness-leaked", "the mutation made by consumer %d (%s) is visible to consumer %d (%s)", o.n, desc[o.n], c.n, desc[c.n])
+				}
 			}
 		}
-		// nobody else's witness may be reachable from this consumer's data
-		for _, o := range cs {
-			if o.n != c.n && bytes.Contains(now, []byte(fmt.Sprintf("WITNESS-%d", o.n))) {
-				r.Failf("isolation", "witness-leaked", "the mutation made by consumer %d (%s) is visible to consumer %d (%s)", o.n, desc[o.n], c.n, desc[c.n])
-			}
-		}
+		r.State(fmt.Sprintf("%s n=%d ro=%d inputRO=%v", p.sig, n, nRO, inputRO), "consume")
+		cancelThis()
 	}
-	r.State(fmt.Sprintf("%s n=%d ro=%d inputRO=%v", p.sig, n, nRO, inputRO), "consume")
 }
 
 func witnessesIn(b []byte) string {
@@ -732,5 +746,5 @@ var HarnessC06 = simkit.Harness{
 	Prop: "C06", Name: "svc/c06", Run: runC06, StepTimeout: 20e9, HashInsensitive: true,
 	Real: append([]string{"internal/fanoutconsumer (logs, traces, metrics, profiles)", "exporterhelper exporters (in-memory queue, batching none / queue / legacy) for the declared capability of the exporter stage (1 run in 12)", "pdata read-only state and deep copy", "service/internal/capabilityconsumer and the graph's capabilities / fan-out nodes (graph mode)"}, svcReal...),
 	Stub: append([]string{"consumers with a declared capability, an injected failure and a mutation program run during the call, as a later task, or undeclared"}, svcStub...),
-	Rule: "one run = direct mode: a fan-out over 1-5 simulated consumers with a tape-drawn capability vector, read-only or mutable generated input, per-consumer failure and mutation program (6 kinds: one overwrites every reachable value in place keeping its type, one is a seeded walk over the public pdata API found by reflection calling Set*/Put*/Remove*/Append*/From*/Clear*/Ensure*/Sort* with generated arguments; synchronous, as a later task in tape order, or undeclared by a non-mutating consumer); or graph mode: a generated service topology (as C09) whose mutating processors and mutating exporters really mutate, with delivery trails and each pipeline's advertised capability compared with the configuration; distinct = distinct event-log hash; non-trivial = more than one consumer or an asynchronous mutation / a payload with >1 delivery.",
+	Rule: "one run = direct mode: a fan-out over 1-5 simulated consumers with a tape-drawn capability vector, read-only or mutable generated input, per-consumer failure and mutation program (6 kinds: one overwrites every reachable value in place keeping its type, one is a seeded walk over the public pdata API found by reflection calling Set*/Put*/Remove*/Append*/From*/Clear*/Ensure*/Sort* with generated arguments; synchronous, as a later task in tape order, or undeclared by a non-mutating consumer; in 1 run in 3 two or three payloads - empty ones among them - go through the same fan-out one after the other); or graph mode: a generated service topology (as C09) whose mutating processors and mutating exporters really mutate, with delivery trails and each pipeline's advertised capability compared with the configuration; distinct = distinct event-log hash; non-trivial = more than one consumer or an asynchronous mutation / a payload with >1 delivery.",
 }
